@@ -333,6 +333,113 @@ pub fn exec(op: &str, a: &[u64]) -> Result<Outcome, String> {
             o.check(after.is_none(), "iterator yields again after reporting the end");
             Ok(o)
         }
+        "pipestall" => {
+            // wall-clock stalls far longer than any scheduling hiccup (real OS schedule, two pipes side by side):
+            // pipe A has one item that takes `slow_ms` to process (the consumer waits in `next()` that long; the other
+            // workers wait for their turn); the consumer of pipe B reads `pause_after` items, then does not poll for
+            // `pause_ms` while the workers sit on a full channel, then drains.  A pipe has no clock: both must be the
+            // sequential map.
+            let w = r.usize()?;
+            let n = r.usize()?;
+            let j = r.nat()?;
+            let slow_ms = r.nat()?;
+            let pause_after = r.usize()?;
+            let pause_ms = r.nat()?;
+            r.end()?;
+            Sched::uninstall();
+            let a = std::thread::spawn(move || {
+                let pipeline: Arc<dyn Fn(u64) -> u64 + Send + Sync> = Arc::new(move |x| {
+                    if x == j {
+                        std::thread::sleep(Duration::from_millis(slow_ms));
+                    }
+                    f(x)
+                });
+                (0..n as u64).pipe(pipeline, w as u8).collect::<Vec<u64>>()
+            });
+            let pipeline: Arc<dyn Fn(u64) -> u64 + Send + Sync> = Arc::new(f);
+            let mut it = (0..n as u64).pipe(pipeline, w as u8);
+            let mut out_b = vec![];
+            while let Some(v) = it.next() {
+                out_b.push(v);
+                if out_b.len() == pause_after {
+                    std::thread::sleep(Duration::from_millis(pause_ms));
+                }
+            }
+            let out_a = a.join().map_err(|_| "pipe A panicked".to_string())?;
+            let want: Vec<u64> = (0..n as u64).map(f).collect();
+            let mut o = Outcome::new(format!("ok {} {}", out_a.len(), out_b.len()));
+            o.check(out_a == want, "an item that takes long to process: items lost, reordered, or the iteration ended before the last item");
+            o.check(out_b == want, "a consumer that pauses between two calls of next(): items lost, reordered, or the iteration ended before the last item");
+            Ok(o)
+        }
+        "pipegap" => {
+            // an upstream that is NOT fused (its `next()` returns `None` and later items again, as `scan` / `map_while`
+            // adapters and growing files do): every `None` ends exactly one worker, so the items before the w-th
+            // `None` arrive in order and the iteration ends; nobody may be left waiting for a turn that never comes
+            // (consumer blocked, or a worker spinning after the drop).
+            let w = r.usize()?;
+            let k = r.nat()?;
+            let entries = r.nats()?;
+            r.end()?;
+            Sched::uninstall();
+            struct Gappy {
+                entries: Vec<u64>,
+                pos: usize,
+                item: u64,
+                pulled: Arc<AtomicUsize>,
+            }
+            impl Iterator for Gappy {
+                type Item = u64;
+                fn next(&mut self) -> Option<u64> {
+                    self.pulled.fetch_add(1, Ordering::SeqCst);
+                    let e = self.entries.get(self.pos).copied().unwrap_or(0);
+                    self.pos = (self.pos + 1).min(self.entries.len());
+                    if e == 1 {
+                        self.item += 1;
+                        Some(self.item - 1)
+                    } else {
+                        None
+                    }
+                }
+            }
+            let pulled = Arc::new(AtomicUsize::new(0));
+            let src = Gappy { entries: entries.clone(), pos: 0, item: 0, pulled: pulled.clone() };
+            let pipeline: Arc<dyn Fn(u64) -> u64 + Send + Sync> = Arc::new(f);
+            let probe = pipeline.clone();
+            // the consumer runs in its own thread: a consumer that never returns must not take the request with it
+            let (txr, rxr) = std::sync::mpsc::channel();
+            std::thread::spawn(move || {
+                let mut it = src.pipe(pipeline, w as u8);
+                let mut got = vec![];
+                while (got.len() as u64) < k {
+                    match it.next() {
+                        Some(v) => got.push(v),
+                        None => break,
+                    }
+                }
+                drop(it);
+                txr.send(got).ok();
+            });
+            let got = match rxr.recv_timeout(Duration::from_secs(20)) {
+                Ok(g) => g,
+                Err(_) => {
+                    let mut o = Outcome::new("ok blocked".to_string());
+                    o.check(false, "the consumer is still blocked in next() 20 s after the upstream returned None (a worker waits for a turn that never comes)");
+                    return Ok(o);
+                }
+            };
+            // after the drop every worker exits: it gives up its clone of the processing function
+            let start = std::time::Instant::now();
+            while Arc::strong_count(&probe) > 1 && start.elapsed() < Duration::from_secs(10) {
+                std::thread::sleep(Duration::from_millis(5));
+            }
+            let mut o = Outcome::new(format!("ok {}", got.len()));
+            o.check(got.iter().enumerate().all(|(i, v)| *v == f(i as u64)), "received sequence is not f(x0), f(x1), ... in order");
+            o.check(Arc::strong_count(&probe) == 1, "a worker thread is still alive 10 s after the iterator was dropped");
+            let firstgap = entries.iter().take_while(|&&e| e == 1).count() as u64;
+            o.check(got.len() as u64 >= firstgap.min(k), "items before the first None of the upstream were not delivered");
+            Ok(o)
+        }
         "pipedeep" => {
             // a processing function that needs `kib` KiB of stack on some items (far below the 2 MiB a spawned thread
             // gets by default): the piped map must still be the sequential map, for every worker count.  Runs in a
@@ -836,6 +943,25 @@ pub fn run_c05(ctx: &mut Ctx) {
             ctx.case("pipeslow", &[w, n, j, ms]);
         }
     }
+    // wall-clock stalls of several seconds (an item that takes long, a consumer that pauses): once per run
+    if ctx.first_shard() {
+        let stalls: &[(u64, u64, u64, u64, u64, u64)] = if ctx.thorough { &[(2, 60, 7, 6500, 20, 3000), (1, 40, 3, 6500, 9, 3000), (4, 90, 30, 11000, 50, 5000)] } else { &[(2, 60, 7, 6500, 20, 3000)] };
+        for &(w, n, j, slow, after, pause) in stalls {
+            ctx.case("pipestall", &[w, n, j, slow, after, pause]);
+        }
+    }
+    // upstreams that are not fused
+    let n_gap = ctx.budget(40, 1500);
+    for i in 0..n_gap {
+        let w = ctx.rng.random_range(0..=4u64);
+        let len = ctx.rng.random_range(1..=if i % 10 == 0 { 300 } else { 24 });
+        let p_gap = [0.05, 0.15, 0.4][ctx.rng.random_range(0..3)];
+        let entries: Vec<u64> = (0..len).map(|_| if ctx.rng.random_bool(p_gap) { 0 } else { 1 }).collect();
+        let k = if i % 3 == 0 { ctx.rng.random_range(0..=len) } else { u64::MAX };
+        let mut v = vec![w, k];
+        enc_nats(&mut v, entries.iter().copied());
+        ctx.case("pipegap", &v);
+    }
     // many pipes alive at once (more workers than CPUs), the last one must not depend on the others
     if ctx.first_shard() {
         let cpus = std::thread::available_parallelism().map(|x| x.get() as u64).unwrap_or(16);
@@ -910,6 +1036,18 @@ pub fn run_c09(ctx: &mut Ctx) {
         let n = [50u64, 3000, 20000, 1 << 40][ctx.rng.random_range(0..4)];
         let k = ctx.rng.random_range(0..=10u64);
         ctx.case("pipeidle", &[w, n, k, i % 2]);
+    }
+    // upstreams that are not fused (None, then items again): the workers must still exit after the drop / the end
+    let n_gap = ctx.budget(40, 1500);
+    for i in 0..n_gap {
+        let w = ctx.rng.random_range(1..=4u64);
+        let len = ctx.rng.random_range(1..=if i % 10 == 0 { 2000 } else { 30 });
+        let p_gap = [0.02, 0.1, 0.3][ctx.rng.random_range(0..3)];
+        let entries: Vec<u64> = (0..len).map(|_| if ctx.rng.random_bool(p_gap) { 0 } else { 1 }).collect();
+        let k = if i % 2 == 0 { ctx.rng.random_range(0..=len.min(12)) } else { u64::MAX };
+        let mut v = vec![w, k];
+        enc_nats(&mut v, entries.iter().copied());
+        ctx.case("pipegap", &v);
     }
     // a panic in the very first item while the constructor is still spawning workers
     if ctx.first_shard() {
